@@ -26,6 +26,9 @@ func selectedFns(c *Ctx) []*ssa.Function {
 }
 
 func runC12(c *Ctx) {
+	// the pool's selected methods hand the model's error to their caller
+	c.armPoolError("N7-pool-reports-the-error", func(m string) bool { return strings.HasPrefix(m, "ExecuteSelected") }, 10)
+
 	fns := selectedFns(c)
 	if len(fns) < 11 {
 		c.Lost("N1-selection", "the 11 (*Gengine).ExecuteSelected* functions")
